@@ -47,7 +47,8 @@ def jobs(tier):
     js.append(("job_ed_scalar_codec", dict(_name="real Ed25519: every scalar of [0,L) survives the scalar codec")))
     for g in ("toy11", "I1024", "Ed25519"):
         js.append(("job_matrix", dict(_name="session matrix on the plain package: %s (ground)" % g, gname=g)))
-    for g in ("toy257", "toy1019", "sp61"):
+    js.append(("job_matrix", dict(_name="session matrix on the plain package: big2052, scalars wider than 256 bytes (ground)", gname="big2052")))
+    for g in ("toy257", "toy1019", "sp61", "big2052"):
         js.append(("job_int_scalar_codec", dict(_name="custom group %s: every scalar of [0,q) survives the scalar codec" % g, gname=g)))
     return js
 
